@@ -71,6 +71,8 @@ def check_C02(ctx):
         col = {} if r.random() < 0.25 else NOCOLOR
         if days and r.random() < 0.3:      # "every selected day in file order": with a period on a log whose days may be out of order
             col = dict(col, **{r.choice(["g_end", "l_end", "g_begin"]): r.choice(days)})
+            # ... in a process zone other than UTC and without --today: the bound is a calendar day, not an instant of the local zone
+            if r.random() < 0.5: col["tz"] = r.choice([("Asia/Tokyo", 32400), ("America/New_York", -18000), ("Asia/Kolkata", 19800), ("Pacific/Kiritimati", 50400)])
         cases.append(dict(files=f, cmd="reg", **col))
         cases.append(dict(files=f, cmd="reg", template="left-aligned", **col))
         cases.append(dict(files=f, cmd="reg", old=True, **col))
@@ -80,7 +82,7 @@ def check_C02(ctx):
         if rep_food or any(len(v) > 0 for v in w["meta"]["defs"].values()): ctx.nontriv(f["log.yaml"] + f["food.yaml"])
         ctx.tally("repeated_food_in_a_day", rep_food)
         if k < 1: ctx.sample(dict(book=f["food.yaml"], log=f["log.yaml"]))
-    cli_diff(ctx, cases, tag="C02:")
+    cli_diff(ctx, cases, tag="C02:", pipe_frac=0.1)
     # the property's clauses on the implementation's own output (plain names, exact-envelope numbers)
     pc = []; metas = []
     for k in range(ctx.scale(400, 6000)):
@@ -343,7 +345,9 @@ ALL_CMDS = ["reg", "bal", "unresolved", "quantity", "totals", "csv-log", "csv-db
 def tie_world(r):
     """many ties: equal quantities, equal element values, several unknown foods, chains near the limit"""
     els = ["kcal", "fat", "prot", "salt"]
+    if r.random() < 0.35: els += r.sample(["Kcal", "KCAL", "Fat", "FAT", "Prot", "SALT", "Salt"], r.randint(1, 4))     # names that differ only in letter case: distinct names, ties for any case-blind order
     recs = ["r%d" % i for i in range(r.randint(2, 7))]
+    if r.random() < 0.25: recs += r.sample(["R0", "R1", "R2"], r.randint(1, 2))
     book = []
     for x in recs:
         book.append(("heading", x))
@@ -353,7 +357,7 @@ def tie_world(r):
         if r.random() < 0.15 and len(book) > 1 and book[-1][0] == "entry": book.append(book[-1])
     if r.random() < 0.15:      # a heading declared twice (the later record replaces the earlier one)
         book += [("heading", r.choice(recs)), ("entry", r.choice(els), "2")]
-    foods = recs + ["u%d" % i for i in range(r.randint(2, 5))] + ["a/b", "a/c", "b/a"]
+    foods = recs + ["u%d" % i for i in range(r.randint(2, 5))] + ["a/b", "a/c", "b/a"] + (["U0", "A/b", "a/B"] if r.random() < 0.25 else [])
     log = []
     for d in range(r.randint(1, 3)):
         log.append(("heading", "2021/01/%02d" % (d + 1)))
@@ -458,6 +462,25 @@ def check_C05(ctx):
         distinct = {(rr[j]["status"], rr[j]["stdout"]) for rr in res}
         if len(distinct) > 1:
             ctx.violation("C05:differs-between-processes:" + c["cmd"], "%s gives different results in different processes" % c["cmd"], dict(kind="cli", case=c, outputs=[dict(status=s, stdout=o) for s, o in sorted(distinct)][:4]))
+    # the same bytes delivered in different pieces (a pipe written byte by byte, in pairs, at once; a regular file): the report is a function of the bytes, not of
+    # how the operating system hands them over.  Files that begin with a byte order mark or whose first line is split by the first read are the sensitive ones.
+    BOM = b"\xef\xbb\xbf"
+    for k in range(ctx.scale(4, 30)):
+        book, log = tie_world(r)
+        fb, lb = gen.render_items(r, book), gen.render_items(r, log)
+        for f, cmd in (({"food.yaml": BOM + fb, "log.yaml": lb}, "csv-db"), ({"food.yaml": fb, "log.yaml": BOM + lb}, "print"), ({"food.yaml": fb, "log.yaml": lb}, "reg")):
+            base = dict(files=f, cmd=cmd, f_today="2021/01/05", **NOCOLOR)
+            name = "food.yaml" if cmd == "csv-db" else "log.yaml"
+            variants = [base] + [dict(base, fifo=[name], fifo_piece=pc) for pc in (1, 1, 1, 2, 2, 3, 4096) for _ in range(2)]
+            outs = run.run_cli_cases(ctx.impl, variants); ctx.count(len(variants)); ctx.tally("delivery", "same bytes as a file and through a pipe in pieces of 1, 2, 3, 4096")
+            distinct = {(o["status"], o["stdout"]) for o in outs}
+            if len(distinct) > 1:
+                a, b2 = sorted(distinct)[:2]
+                ctx.violation("C05:depends-on-delivery:" + cmd, "%s gives different results for the same bytes delivered in different pieces: %r / %r" % (cmd, a[0] + " " + repr(a[1][:150]), b2[0] + " " + repr(b2[1][:150])),
+                              dict(kind="cli", case=base, outputs=[dict(status=s2, stdout=o2) for s2, o2 in sorted(distinct)][:4]))
+            m = run.run_model([run.model_request(base)])[0]
+            d = run.compare_cli(m, outs[0], base)
+            if d: ctx.violation("corr:C05:delivery:" + cmd, d, dict(kind="cli", case=base, impl=outs[0], correspondence="S-CLI (extracted Coq model vs implementation)"), found_input=False)
     return dict(rule="tie-rich worlds (equal quantities, equal element values, several unresolved foods, >= 2 keys in every accumulator, sibling categories, chains and cycles near the depth "
                 "limit) x all 13 commands; each invocation repeated %d times in one process (fresh maps each time) and in %d separate processes; all repetitions must be byte-identical "
                 "(stdout and status) and equal to the extracted Coq model, whose independence of every map order is the theorem. Non-trivial = every world (ties by construction), "
@@ -543,6 +566,25 @@ def check_C06(ctx):
                 c1 = period_case(r, f, cmd, tz=tz, g_begin=kwd); c1["f_today"] = ts
                 c2 = period_case(r, fdel, cmd, tz=tz); c2["f_today"] = ts
                 cases += [c1, c2]; pairs.append((len(cases) - 2, len(cases) - 1, "keyword %s today=%s %s tz=%s" % (kwd, ts, cmd, tz[0])))
+        # the date format from the configuration file / the environment / the flag: --today, the bounds and the headings are all read in the format IN EFFECT
+        if ln < ctx.scale(3, 12):
+            for lay in ("2006-01-02", "02.01.2006", "01/02/2006", "2 Jan 2006"):
+                items2 = window_log(r, [(d.year, d.month, d.day) for d in ds], layout=lay)
+                f2 = {"food.yaml": book, "log.yaml": gen.render_items(r, items2, crlf=False, final_newline=True)}
+                for kwd, off in [("today", 0), ("yesterday", -1), (None, -2)]:
+                    today = r.choice(win); bd = today + datetime.timedelta(days=off)
+                    keep = lambda i, bd=bd: ds[i] >= bd
+                    fdel = {"food.yaml": book, "log.yaml": gen.render_items(r, delete_days(items2, keep), crlf=False, final_newline=True)}
+                    src = r.choice(["cfg", "cfg", "env", "flag"])
+                    cmd = r.choice(PERIOD_CMDS)
+                    c1 = period_case(r, dict(f2), cmd, tz=r.choice(tzs), g_begin=kwd or gen._fmt(lay, bd.year, bd.month, bd.day)); c2 = period_case(r, dict(fdel), cmd, tz=c1["tz"])
+                    for c in (c1, c2):
+                        c["f_today"] = gen._fmt(lay, today.year, today.month, today.day)
+                        if src == "flag": c["f_fmt"] = lay
+                        elif src == "env": c["e_fmt"] = lay
+                        else: c["files"]["my.cfg"] = {"cfg": {"fmt": lay}}; c["f_config"] = "my.cfg"
+                    cases += [c1, c2]; pairs.append((len(cases) - 2, len(cases) - 1, "begin %s today=%s %s, date format %r from %s" % (kwd or "a date", c1["f_today"], cmd, lay, src)))
+                    ctx.tally("date_format_source", src)
         # keywords across a daylight-saving switch of the process zone (the period is defined on calendar days, not on local wall-clock hours)
         if ln < ctx.scale(2, 10):
             for (ty, tm, td) in [(2021, 3, 15), (2021, 3, 14), (2021, 11, 8), (2021, 11, 7), (2021, 3, 29), (2021, 10, 31)]:
@@ -619,6 +661,19 @@ def check_C06(ctx):
                     c1["f_today"] = c2["f_today"] = "2021/01/24" + zsuf
                     cases += [c1, c2]; pairs.append((len(cases) - 2, len(cases) - 1, "period %s..%s %s under the date format %r, TZ %s" % (bb, ee, cmd, zfmt, tz[0])))
             ctx.nontriv(fz["log.yaml"])
+        # a date format with a time of day, down to fractions of a second (outside the model): `summary DATE` shows every record of that calendar day, also one
+        # in its first and in its last second (23:59:59.250 is after 23:59:59 and before midnight); the period bounds compare instants
+        if ln < ctx.scale(2, 8):
+            for tfmt, times in (("2006/01/02 15:04:05.000", ["00:00:00.000", "23:59:59.250", "23:59:59.999", "12:30:00.500", "23:59:59.000"]), ("2006/01/02 15:04", ["00:00", "23:59", "12:00"]),
+                                ("2006/01/02 15:04:05", ["00:00:00", "23:59:59", "23:59:58"])):
+                tds = [datetime.date(2021, 1, 19), datetime.date(2021, 1, 20), datetime.date(2021, 1, 20), datetime.date(2021, 1, 21), datetime.date(2021, 1, 20), datetime.date(2021, 1, 21)]
+                heads = [d.strftime("%Y/%m/%d") + " " + times[j % len(times)] for j, d in enumerate(tds)]
+                logb = "".join("%s:\n  bread: %d\n" % (h, j + 1) for j, h in enumerate(heads)).encode()
+                ft = {"food.yaml": book, "log.yaml": logb}
+                for sel in (datetime.date(2021, 1, 20), datetime.date(2021, 1, 21), datetime.date(2021, 1, 19)):
+                    arg = sel.strftime("%Y/%m/%d") + " " + r.choice(times)
+                    c1 = dict(files=ft, cmd="summary", arg=arg.encode(), f_fmt=tfmt, f_today="2021/01/24 " + times[0], tz=("UTC", 0), **NOCOLOR)
+                    cases.append(c1); pairs.append((len(cases) - 1, None, (sel, tds))); ctx.tally("date_format_with_time_of_day", tfmt)
         # days and bounds far from the present: years 1 ... 9999 (instants outside 1678 .. 2262 do not fit a 64-bit nanosecond counter)
         if ln < ctx.scale(2, 10):
             far = [(1, 1, 1), (1500, 6, 1), (1677, 9, 21), (1677, 9, 22), (1969, 12, 31), (2262, 4, 11), (2262, 4, 12), (2300, 1, 1), (9999, 12, 31), (2021, 1, 20), (2021, 1, 22)]
@@ -717,6 +772,7 @@ def check_C07(ctx):
         days = [h for h, _ in log_days(w)]
         day = r.choice(days) if days else "2021/01/20"
         base = dict(files=f, f_today="2021/02/01", **NOCOLOR)
+        if k % 5 == 2: base["false_flags"] = ["no_database"]; ctx.tally("world", "--no-database=false given (the book is used all the same)")
         cs = dict(
             totals=dict(base, cmd="totals"), reg=dict(base, cmd="reg"), regsx=dict(base, cmd="reg", single_element=x, csv=True),
             regsxg=dict(base, cmd="reg", single_element=x, group_food=True), bal=dict(base, cmd="bal"), balsx=dict(base, cmd="bal", single_element=x),
@@ -1024,8 +1080,9 @@ REGEXES = ["^br", "ea$", "b.*d", "[a-c]+", "tea|bread", "(meat)/(veal|pork)", "\
 
 def check_C12(ctx):
     r = ctx.rng
-    book = b"bread:\n  kcal: 250\n  fat: 1\ntea:\n  kcal: 2\nmeat/veal:\n  kcal: 100\n  prot: 20\nmeat/pork:\n  kcal: 0.5\n"
-    foods = ["bread", "tea", "meat/veal", "meat/pork", "water", "kcal", "sweets/cake", "vegetables/tomato/red/organic/100g", "a-very-long-food-name-that-does-not-fit", "drinks/hot/coffee", "drinks/hot/tea"]
+    book = b"bread:\n  kcal: 250\n  fat: 1\ntea:\n  kcal: 2\nmeat/veal:\n  kcal: 100\n  prot: 20\nmeat/pork:\n  kcal: 0.5\nbread/white/slice:\n  kcal: 80\nmeat:\n  kcal: 10\n"
+    foods = ["bread", "tea", "meat/veal", "meat/pork", "water", "kcal", "sweets/cake", "vegetables/tomato/red/organic/100g", "a-very-long-food-name-that-does-not-fit", "drinks/hot/coffee", "drinks/hot/tea",
+             "bread/white/slice", "meat"]      # names that are booked directly AND are the category of another booked food
     cases = []; triples = []
     for k in range(ctx.scale(200, 4000)):
         nb = r.randint(2, 6)
@@ -1034,6 +1091,8 @@ def check_C12(ctx):
         if r.random() < 0.2:      # members of one category that cancel across the two parts
             q = r.choice(["3", "1.5", "8"])
             dblocks[0].append(("entry", "drinks/hot/coffee", q)); dblocks[-1].append(("entry", "drinks/hot/tea", "-" + q))
+        if r.random() < 0.25:     # a food booked directly in one part and a food below it (its sub-category) in the other
+            dblocks[0].append(("entry", "bread", r.choice(["2", "1.5"]))); dblocks[-1].append(("entry", "bread/white/slice", r.choice(["3", "1"])))
         blocks = [gen.render_items(r, b2, crlf=False, final_newline=True) for b2 in dblocks]
         cut = r.randint(1, nb - 1)
         l1, l2 = b"".join(blocks[:cut]), b"".join(blocks[cut:])
@@ -1048,7 +1107,7 @@ def check_C12(ctx):
             for lg in (l1, l2, l1 + l2):
                 cases.append(dict(files={"food.yaml": book, "log.yaml": lg}, cmd=cmd, **kw, **NOCOLOR)); tri.append(len(cases) - 1)
             triples.append((cmd, kw, tri))
-    ires = cli_diff(ctx, cases, tag="C12:")
+    ires = cli_diff(ctx, cases, tag="C12:", pipe_frac=0.1)
     for cmd, kw, (a, b2, ab) in triples:
         x, y, z = ires[a], ires[b2], ires[ab]
         if not (x["status"] == y["status"] == z["status"] == "ok"): continue
@@ -1114,6 +1173,9 @@ def check_C13(ctx):
             extra = r.choice(['a,b', 'say "hi" x', 'x;y', '\u00a0nbsp', '\u3000wide', 'tab\there', 'q"z', 'ü,"ö"x', '\\.', "cr\rmid", "ж,ж", ",", "a,,b"])
             w["log"].append(("heading", "2021/03/01")); w["log"].append(("entry", extra, gen.number(r)))
             w["book"].append(("heading", extra)); w["book"].append(("entry", r.choice(['e,1', 'plain', 'x"q"y', '\u2003em']), gen.number(r)))
+        if r.random() < 0.15:   # days in years of fewer than four digits and far ones: the date column is ISO 8601 (four-digit year, zero padded)
+            for yy in r.sample([1, 7, 45, 999, 1000, 1066, 9999, 476], 2):
+                w["log"].append(("heading", "%04d/%02d/%02d" % (yy, r.randint(1, 12), r.randint(1, 28)))); w["log"].append(("entry", r.choice(["bread", "tea", "x y"]), gen.number(r)))
         f = files_of(r, w)
         tz = r.choice([None, None, ("Asia/Tokyo", 32400), ("Europe/Sofia", 7200), ("America/New_York", -18000), ("Pacific/Kiritimati", 50400)])
         for cmd in ("csv-log", "csv-db", "csv-db-resolved"):
@@ -1142,7 +1204,7 @@ def check_C13(ctx):
             nm = row[1 if c["cmd"] == "csv-log" else 0].encode("utf-8", "surrogateescape")
             if nm not in srcb:
                 ctx.violation("C13:name-not-preserved:" + c["cmd"], "the exported name %r does not occur in the source file" % nm, dict(kind="cli", case=c, impl=i)); break
-    ires = cli_diff(ctx, cases, tag="C13:")
+    ires = cli_diff(ctx, cases, tag="C13:", pipe_frac=0.1)
     # the model's own RFC 4180 reader and Python's csv module as two independent readers of the implementation's output
     oks = [(c, i, w) for c, i, w in zip(cases, ires, metas) if i["status"] == "ok"]
     dec = run.run_model([run.req(op="csvdecode", data=i["stdout"]) for c, i, w in oks])
@@ -1307,7 +1369,7 @@ def check_C14(ctx):
         if k % 3 == 0: c["g_begin"] = gen._fmt(layout, gd.year, gd.month, gd.day); c["g_end"] = c["g_begin"]
         cases.append(c); metas.append((layout, items)); ctx.tally("midnight_gap_zone", zone)
         ctx.nontriv(logb + zone.encode())
-    ires = cli_diff(ctx, cases, tag="C14:")
+    ires = cli_diff(ctx, cases, tag="C14:", pipe_frac=0.15)
     # on the implementation alone, against the abstract log: the printed days are the days of the log (same dates, same order, within the period), and
     # every food of a day is printed once (duplicates of a day merged)
     for c, (layout, items), i in zip(cases, metas, ires):
@@ -1593,6 +1655,8 @@ def check_C16(ctx):
                         chk = lambda i, want=want: (want.encode() in i["stdout"], "csv log shows the log %r" % want)
                     elif setting == "fmt":
                         lay = dict(flag="02.01.2006", env="2006-01-02", cfg="01/02/2006") if not eqd else dict(flag="2006/01/02", env="2006/01/02", cfg="01/02/2006")
+                        # layouts of other shapes (elements without padding, month names): every layout Go's time package reads is a legitimate value
+                        if r.random() < 0.4: lay = dict(flag=r.choice(["2 Jan 2006", "2006-Jan-2"]), env=r.choice(["2.1.2006", "1/2/2006"]), cfg=r.choice(["January 2, 2006", "2006 January 02"]))
                         eff = lay["flag"] if has["flag"] else lay["env"] if has["env"] else lay["cfg"] if has["cfg"] else "2006/01/02"
                         files["log.yaml"] = (gen._fmt(eff, 2021, 3, 4) + ":\n  x: 1\n").encode()      # readable only under the effective layout
                         if has["flag"]: c["f_fmt"] = lay["flag"]
@@ -1716,7 +1780,8 @@ def check_C16(ctx):
         f = files_of(r, w)
         fe = dict(f, **{"food.yaml": b"", "other.yaml": f["food.yaml"]})
         els = gen.element_names(w) or ["x"]
-        for cmd, kw in [("reg", {}), ("bal", dict(single_element=els[0])), ("totals", {}), ("unresolved", {}), ("csv-db", {}), ("csv-db-resolved", {}), ("element-total", dict(arg=els[0].encode())), ("quantity", {}), ("print", {})]:
+        for cmd, kw in [("reg", {}), ("bal", dict(single_element=els[0])), ("totals", {}), ("unresolved", {}), ("csv-db", {}), ("csv-db-resolved", {}), ("element-total", dict(arg=els[0].encode())), ("quantity", {}), ("print", {}),
+                        ("stats", dict(f_today="2021/02/01")), ("summary", dict(arg=b"2021/01/20")), ("reg", dict(single_element=els[0])), ("csv-log", {})]:
             variant = r.choice(["plain", "with -d", "with env", "no food.yaml"])
             files = dict(f, **{"other.yaml": f["food.yaml"]})
             c1 = dict(files=files, cmd=cmd, no_database=True, **kw, **NOCOLOR)
@@ -1736,6 +1801,8 @@ def check_C16(ctx):
                           dict(kind="cli", case=c, impl=i))
     for a, b2, variant in nd_pairs:
         x, y = ires[a], ires[b2]
+        if cases[a]["cmd"] == "stats":       # stats names the book it was given: that line is the one place where the two runs rightly differ
+            x, y = (dict(v, stdout=re.sub(rb"(?m)^\s*Database file:.*\n", b"", v["stdout"])) for v in (x, y))
         if (x["status"], x["stdout"]) != (y["status"], y["stdout"]):
             ctx.violation("C16:no-database:" + cases[a]["cmd"], "--no-database (%s) does not behave as an empty recipe book for %s: %r / %r" % ((variant, cases[a]["cmd"]) + first_diff(x["stdout"], y["stdout"])),
                           dict(kind="cli", case=cases[a], impl=x, empty_book_case=cases[b2], empty_book_impl=y))
@@ -1801,15 +1868,33 @@ def check_C17(ctx):
         for path, content in small.items(): open(os.path.join(d0, path), "wb").write(content)
         open(os.path.join(d0, "bad.yaml"), "wb").write(bad)
         gens = [dict(files=small, cmd="gen", raw_argv=["gen", "man"]), dict(files=small, cmd="gen", raw_argv=["gen", "markdown"])]      # outside the model: library output
+        # is a private mount namespace with a tmpfs available here? (needs the privileges the default-configuration cases of C16 use as well)
+        fullfs = os.path.join(d0, "fullfs"); os.makedirs(fullfs)
+        probe = subprocess.run(["unshare", "-m", "sh", "-c", "mount -t tmpfs -o size=64k tmpfs %s || { echo NOMOUNT; exit 0; }; (dd if=/dev/zero of=%s/fill bs=1k count=100 2>/dev/null; echo x > %s/probe) 2>&1; echo rc=$?" % ((run.sh_quote(fullfs),) * 3)],
+                               stdout=subprocess.PIPE, stderr=subprocess.STDOUT, env=dict(PATH="/usr/bin:/bin:/usr/sbin:/sbin"))
+        if b"NOMOUNT" in probe.stdout or b"rc=0" in probe.stdout or b"rc=" not in probe.stdout: fullfs = None       # not available (or the file system did not fill): the sink is left out, and the evidence says so
+        ctx.tally("real_binary_sink", "file-on-a-full-filesystem available" if fullfs else "file-on-a-full-filesystem NOT available")
         for c in forms(small) + gens:
             argv, env = run.argv_env(c)
-            for sinkname in ("/dev/full", "closed-pipe"):
+            for sinkname in ("/dev/full", "closed-pipe", "read-only-descriptor", "file-on-a-full-filesystem"):
                 full = subprocess.run([ctx.impl["hr"]] + argv, cwd=d0, env=dict(env, PATH="/usr/bin:/bin", HOME=d0), stdout=subprocess.PIPE, stderr=subprocess.PIPE, timeout=20)
                 if full.returncode != 0 or not full.stdout: continue
+                if sinkname == "file-on-a-full-filesystem" and not fullfs: continue
                 ctx.tally("real_binary_sink", sinkname)
                 if sinkname == "/dev/full":
                     with open("/dev/full", "wb") as out:
                         p = subprocess.run([ctx.impl["hr"]] + argv, cwd=d0, env=dict(env, PATH="/usr/bin:/bin", HOME=d0), stdout=out, stderr=subprocess.PIPE, timeout=20)
+                elif sinkname == "read-only-descriptor":
+                    # standard output is a regular file opened for reading (`1<file`): every write fails with EBADF, an errno that is neither "disk full" nor "broken pipe"
+                    ro = os.path.join(d0, "ro.out"); open(ro, "wb").close()
+                    fd = os.open(ro, os.O_RDONLY)
+                    try: p = subprocess.run([ctx.impl["hr"]] + argv, cwd=d0, env=dict(env, PATH="/usr/bin:/bin", HOME=d0), stdout=fd, stderr=subprocess.PIPE, timeout=20)
+                    finally: os.close(fd)
+                elif sinkname == "file-on-a-full-filesystem":
+                    # a regular file on a file system with no space left (a private tmpfs filled to the last byte): write fails with ENOSPC although the
+                    # descriptor is a regular file (fsync on it succeeds)
+                    inner = "mount -t tmpfs -o size=64k tmpfs %s && (dd if=/dev/zero of=%s/fill bs=1k count=100 2>/dev/null; : > %s/out; cd %s && exec \"$@\" > %s/out)" % ((run.sh_quote(fullfs),) * 3 + (run.sh_quote(d0), run.sh_quote(fullfs)))
+                    p = subprocess.run(["unshare", "-m", "sh", "-c", inner, "sh", ctx.impl["hr"]] + argv, env=dict(env, PATH="/usr/bin:/bin:/usr/sbin:/sbin", HOME=d0), stdout=subprocess.DEVNULL, stderr=subprocess.PIPE, timeout=30)
                 else:
                     rd, wr = os.pipe(); os.close(rd)
                     p = subprocess.run([ctx.impl["hr"]] + argv, cwd=d0, env=dict(env, PATH="/usr/bin:/bin", HOME=d0), stdout=wr, stderr=subprocess.PIPE, timeout=20); os.close(wr)
@@ -1821,7 +1906,7 @@ def check_C17(ctx):
     return dict(rule="every command form (23) on small worlds with the report written to a sink that accepts k bytes and then fails, for EVERY k in 0..len+1 (first world; a stride of 7 plus "
                 "the boundary on the others in the quick tier), a 60-day log whose reports exceed bufio's 4096-byte buffer and a world whose names make single lines longer than that buffer (k around 4096, 8192 and the end, plus random k); in-process with the "
                 "production command wiring; bytes accepted and status compared with the extracted Coq model; on the implementation alone: k < length of the complete report => non-zero "
-                "status, k >= length => identical to the unlimited run, accepted bytes are a prefix of the complete report; plus /dev/full and a closed pipe on the real binary (there also gen man / gen markdown). "
+                "status, k >= length => identical to the unlimited run, accepted bytes are a prefix of the complete report; plus /dev/full, a closed pipe, a descriptor opened read-only (EBADF) and a regular file on a full tmpfs (ENOSPC on a regular file) on the real binary (there also gen man / gen markdown). "
                 "Non-trivial = every world, distinct by file bytes (each stands for all its (command, k) pairs)", extra=dict(exhaustive_offsets=True))
 
 # ---------------------------------------------------------------------------
@@ -1844,6 +1929,11 @@ def check_C18(ctx):
     for policy in ("stop", "drain"):
         reqs.append((dict(op="chan", policy=policy, nofile=True), dict(path="/nonexistent/verif-no-such-file")))
         meta.append((None, policy, None))
+    # ParseFile on a named pipe (a journal piped into the program: readable, no size, not a regular file): the records of the bytes delivered, as from a stream
+    for d in datas[:7] + r.sample(datas[7:], min(len(datas) - 7, ctx.scale(20, 200))):
+        for policy in ("stop", "drain"):
+            reqs.append((dict(op="chan", data=d, policy=policy, fault=None), dict(fifo=1, chunk=r.choice([None, 1, 7])))); meta.append((d, policy, None))
+            ctx.tally("schedule", "ParseFile on a named pipe")
     mreq = [run.req(**a) for a, _ in reqs]
     ireq = [run.req(**{k2: v for k2, v in dict(a, **b2).items() if k2 != "nofile"}) for a, b2 in reqs]
     mres = run.run_model(mreq)
